@@ -130,7 +130,9 @@ TimeEnd(s, i)   == IF i + 8 <= Len(s) /\ s[i + 8] = DOT /\ i + 9 <= Len(s) /\ Is
 Micro(fr)       == LET f6 == SubSeq(fr \o <<48, 48, 48, 48, 48, 48>>, 1, 6) IN ToNat(f6)
 TimeVal(s, i)   == LET e == TimeEnd(s, i)
                        fr == IF e > i + 8 THEN SubSeq(s, i + 9, e - 1) ELSE <<>>
-                   IN <<Dig2(s, i), Dig2(s, i + 3), Dig2(s, i + 6), Micro(fr), Len(fr)>>
+                       \* digits beyond the sixth that are all zeros add nothing (any number of fraction digits is legal)
+                       sig == IF Len(fr) > 6 /\ \A j \in 7..Len(fr) : fr[j] = 48 THEN 6 ELSE Len(fr)
+                   IN <<Dig2(s, i), Dig2(s, i + 3), Dig2(s, i + 6), Micro(fr), sig>>
 TimeValid(t)    == t[1] <= 23 /\ t[2] <= 59 /\ t[3] <= 59
 
 \* classification result: <<class, value>> ; class in "val" | "dt" (date-time awaiting an optional
@@ -395,6 +397,7 @@ Step(st, c0) ==
     [] m = "gridStart" ->       \* first character of a nested grid (liberal: blanks after "<<")
          IF c = 118 THEN [Mode(s, "verLit") EXCEPT !.n = 1]
          ELSE IF c = SP /\ ~s.strict THEN s
+         ELSE IF c \in {NL, CR} THEN s            \* the grid may start on the line after "<<" (the specification's form)
          ELSE Reject(s, "bad_version_header")
     [] m = "verLit" ->          \* "ver:" then the version string
          IF s.n < 4 THEN (IF c = <<118, 101, 114, 58>>[s.n + 1] THEN [s EXCEPT !.n = s.n + 1]
